@@ -275,6 +275,11 @@ def run(ctx):
     # ---- 3. correspondence verdict ------------------------------------------------------------------
     ctx.coverage["disagreements"] = len(disagreements)
     if disagreements and not ctx.violations:
+        # the byte stream of the model no longer matches the code: search the implementation for a pair of
+        # states on which the property itself fails (wider random sweep, oracle only, both algorithms)
+        found = search_failing_pair(ctx, env, 6000 if quick else 30000)
+        ctx.coverage["search_pairs_after_break"] = found
+    if disagreements and not ctx.violations:
         fam, r, x, y = disagreements[0]
         ctx.violation("real SHA-256 cache key differs from the model's key (byte stream of the model no longer matches the code)",
                       {"kind": "correspondence", "correspondence": "hashing.GetTargetChangeHash (sha256) vs GrogModel.Hash.key", "family": fam,
@@ -358,6 +363,37 @@ def outhash_section(ctx, env):
         ctx.violation("real output hash / protobuf marshalling differs from the model", {"kind": "correspondence",
                       "correspondence": "output.getOutputHash + proto.Marshal vs GrogModel.Proto.serOutput / Hash.outHash", "request": r, "impl": x, "model": y,
                       "n_disagreements": len(dis)}, found_input=False)
+
+
+def search_failing_pair(ctx, env, n):
+    rng = ctx.rng
+    pairs = []
+    for _ in range(n):
+        s = gen_state(rng)
+        t = s
+        for _ in range(rng.randint(1, 3)):
+            kind, t = mutate(rng, t)
+        pairs.append(("search:" + kind, s, t))
+    reqs = []
+    for fam, s1, s2 in pairs:
+        for algo in ("sha256", "xxh3"):
+            reqs.append(to_req(s1, algo, "ws", rng)); reqs.append(to_req(s2, algo, "other", rng))
+    out = ctx.impl(reqs, env=env)
+    if out is None:
+        return 0
+    for i, (fam, s1, s2) in enumerate(pairs):
+        same = canon_state(s1) == canon_state(s2)
+        for k, algo in enumerate(("sha256", "xxh3")):
+            k1, k2 = out[4 * i + 2 * k].get("key"), out[4 * i + 2 * k + 1].get("key")
+            if k1 is None or k2 is None:
+                continue
+            if same and k1 != k2:
+                ctx.violation("two equal target states receive different cache keys", {"kind": "oracle", "oracle": "equal state => equal key (search after correspondence break)",
+                              "algo": algo, "state1": s1, "state2": s2, "key1": k1, "key2": k2}, signature="equal-state-different-key:search")
+            if not same and k1 == k2:
+                ctx.violation("two different target states receive the same cache key", {"kind": "oracle", "oracle": "equal key => equal state (search after correspondence break)",
+                              "algo": algo, "state1": s1, "state2": s2, "key": k1}, signature="collision:search")
+    return len(pairs)
 
 
 def replay(ctx, rep):
